@@ -22,6 +22,22 @@ CLAIMED = {
             "std::string / vector<string> payloads need the libstdc++ string model (unit stream_str when present); getView<T> only compiles for uint8_t; "
             "allocation never fails",
             "bounded model checking (cbmc) of LLVM-IR-derived C, native sanitizer replay"),
+    "C04": ("other",
+            "SMT verdicts (z3) over all operand values for every instantiated vec_t operator: the real vec.h code is lowered to LLVM IR and "
+            "executed symbolically; component k of each result must equal the scalar definition on component k. Integers are bit-precise "
+            "(bit-vectors, or integers with explicit mod 2^w), floats are IEEE-754 FloatingPoint terms or uninterpreted operations.",
+            "DESIGN.md 3/C04",
+            "quick: element types uint8/int32/float x shapes 2,3,4 (+padded 3); thorough: all 10 element types; signed inputs restricted so that "
+            "+ - * cannot overflow; NaN excluded for comparison families; operator<< text outside the claim; loop-free kernels (no unwinding bound)",
+            "symbolic execution of LLVM IR into SMT (z3 bit-vector / floating-point / uninterpreted functions), native replay"),
+    "C06": ("other",
+            "SMT verdicts (z3 nlsat) over all real-valued inputs: the LinearSpace/AffineSpace/Quaternion code is lowered to LLVM IR and executed with "
+            "floats as exact reals; each algebraic law is asserted against an independent textbook formula, on every branch "
+            "(all four quaternion-from-matrix branches, both frame() branches). Decides 'right formula on every branch'; rounding-error magnitude is not decided.",
+            "DESIGN.md 3/C06",
+            "REAL mode (exact reals; rcpss/rsqrtss idealised as exact; sin/cos constrained by s^2+c^2=1 and stated double-angle links); "
+            "preconditions det != 0 / unit vectors / unit quaternions; slerp and orthogonal() convergence not covered; float (and padded vec3fa in thorough) instantiations",
+            "symbolic execution of LLVM IR into SMT (z3 nonlinear real arithmetic), compositional cuts, native replay"),
 }
 
 NOT_YET = "check not yet built (work in progress, see DESIGN.md section 7)"
